@@ -20,6 +20,7 @@
   witnesses that `vlib/props/c16.py` still replays (`WITNESSES`).
 -/
 import Sbepp.Lemmas.Optional
+import Sbepp.Lemmas.OptionalTie
 import Sbepp.Rt.Defaults
 
 set_option linter.unusedSimpArgs false
@@ -249,5 +250,127 @@ example : evalLit .int64 "-9223372036854775808" = none := by decide +kernel
 example : evalLit .int64 "-9223372036854775807 - 1" = some (2 ^ 63) := by decide +kernel
 example : genDefault .null .int16 = some 0x8000 := by decide +kernel
 example : builtInDefault .min .float = some 0x00800000 := by decide +kernel
+
+/-! ## the same statements about the definitions regenerated from `sbepp.hpp`
+
+  `Sbepp.Extracted.Optional.RequiredBase` / `.OptionalBase` are written by
+  `extract/methods_optional.py` from the text of `required_base` /
+  `optional_base` on every check (one definition per constructor, member
+  function and friend operator, both comparison configurations);
+  `Lemmas/OptionalTie.lean` proves each equal to the hand model used above,
+  without hypotheses.  The statements below are therefore about what the code
+  says now. -/
+
+section Extracted
+open Sbepp.Extracted.Optional
+open Sbepp.Lemmas
+
+/-- **has_value**, regenerated `has_value()` and `explicit operator bool` -/
+theorem has_value_spec_extracted (T : Ty) (v : Nat) :
+    OptionalBase.hasValue T v = Spec.Scalar.hasValue T.p T.null v ∧
+    OptionalBase.toBool T v = Spec.Scalar.hasValue T.p T.null v := by
+  rw [OptionalTie.Optional.hasValue_tie, OptionalTie.Optional.toBool_tie, to_bool_is_has_value]
+  exact ⟨has_value_spec T v, has_value_spec T v⟩
+
+/-- **default_is_null**, regenerated default / `nullopt` constructors -/
+theorem default_is_null_extracted (T : Ty) :
+    Spec.Scalar.isNull T.p T.null (OptionalBase.ctorDefault T) = true ∧
+    Spec.Scalar.isNull T.p T.null (OptionalBase.ctorNullopt T) = true ∧
+    OptionalBase.hasValue T (OptionalBase.ctorDefault T) = false ∧
+    OptionalBase.toBool T (OptionalBase.ctorDefault T) = false ∧
+    OptionalBase.hasValue T (OptionalBase.ctorNullopt T) = false ∧
+    OptionalBase.toBool T (OptionalBase.ctorNullopt T) = false := by
+  rw [OptionalTie.Optional.ctorDefault_tie, OptionalTie.Optional.ctorNullopt_tie,
+    OptionalTie.Optional.hasValue_tie, OptionalTie.Optional.toBool_tie]
+  exact default_is_null T
+
+/-- a value-constructed object holds the argument, `value()` and `*x` return it -/
+theorem value_roundtrip_extracted (T : Ty) (v : Nat) :
+    OptionalBase.value T (OptionalBase.ctorValue T v) = v ∧
+    OptionalBase.deref T (OptionalBase.ctorValue T v) = v ∧
+    OptionalBase.derefRef T (OptionalBase.ctorValue T v) = v ∧
+    RequiredBase.value T (RequiredBase.ctorValue T v) = v ∧
+    RequiredBase.deref T (RequiredBase.ctorValue T v) = v ∧
+    RequiredBase.derefRef T (RequiredBase.ctorValue T v) = v := by
+  rw [OptionalTie.Optional.value_tie, OptionalTie.Optional.deref_tie, OptionalTie.Optional.derefRef_tie,
+    OptionalTie.Optional.ctorValue_tie, OptionalTie.Required.value_tie, OptionalTie.Required.deref_tie,
+    OptionalTie.Required.derefRef_tie, OptionalTie.Required.ctorValue_tie]
+  exact ⟨rfl, rfl, rfl, rfl, rfl, rfl⟩
+
+theorem required_default_is_zero_extracted (T : Ty) : RequiredBase.ctorDefault T = 0 := by
+  rw [OptionalTie.Required.ctorDefault_tie]
+  exact required_default_is_zero T
+
+/-- **cmp_rules**, regenerated operators and operator selection, both configurations -/
+theorem cmp_rules_extracted (impl : Impl) (T : Ty) (r : Rel) (a b : Nat) :
+    OptionalBase.rel impl T r a b = .val (Spec.Scalar.optRel T.p T.null r a b) := by
+  rw [OptionalTie.Optional.rel_tie]
+  exact cmp_rules impl T r a b
+
+/-- each regenerated pre-C++20 operator follows the documented rule -/
+theorem cmp_rules_operators_extracted (T : Ty) (a b : Nat) :
+    OptionalBase.opEq T a b = Spec.Scalar.optRel T.p T.null .eq a b ∧
+    OptionalBase.opNe T a b = Spec.Scalar.optRel T.p T.null .ne a b ∧
+    OptionalBase.opLt T a b = Spec.Scalar.optRel T.p T.null .lt a b ∧
+    OptionalBase.opLe T a b = Spec.Scalar.optRel T.p T.null .le a b ∧
+    OptionalBase.opGt T a b = Spec.Scalar.optRel T.p T.null .gt a b ∧
+    OptionalBase.opGe T a b = Spec.Scalar.optRel T.p T.null .ge a b := by
+  have h : ∀ r x, Res.val x = Optional.rel .ops T r a b → x = Spec.Scalar.optRel T.p T.null r a b := by
+    intro r x hx
+    rw [cmp_rules] at hx
+    exact Res.val.inj hx
+  refine ⟨h .eq _ ?_, h .ne _ (OptionalTie.Optional.opNe_tie T a b), h .lt _ (OptionalTie.Optional.opLt_tie T a b),
+    h .le _ (OptionalTie.Optional.opLe_tie T a b), h .gt _ (OptionalTie.Optional.opGt_tie T a b),
+    h .ge _ (OptionalTie.Optional.opGe_tie T a b)⟩
+  rw [OptionalTie.Optional.opEq_tie]
+  rfl
+
+/-- the regenerated `operator<=>` is well-formed for every primitive type and,
+    compared with 0, follows the documented rule -/
+theorem spaceship_extracted (T : Ty) (r : Rel) (hr : r.isOrdering = true) (a b : Nat) :
+    ∃ o, OptionalBase.opCmp3 T a b = some o ∧ Ord3.test r o = Spec.Scalar.optRel T.p T.null r a b := by
+  rw [OptionalTie.Optional.opCmp3_tie]
+  have h := cmp_rules .spaceship T r a b
+  cases hs : Optional.spaceship T a b with
+  | none =>
+    cases r <;> simp [Rel.isOrdering] at hr <;> simp [Optional.rel, hs] at h
+  | some o =>
+    refine ⟨o, rfl, ?_⟩
+    cases r <;> simp [Rel.isOrdering] at hr <;> simpa [Optional.rel, hs] using h
+
+theorem spaceship_agrees_with_operators_extracted (T : Ty) (r : Rel) (a b : Nat) :
+    OptionalBase.rel .spaceship T r a b = OptionalBase.rel .ops T r a b := by
+  rw [cmp_rules_extracted, cmp_rules_extracted]
+
+theorem value_or_spec_extracted (T : Ty) (v d : Nat) :
+    OptionalBase.valueOr T v d = Spec.Scalar.valueOr T.p T.null v d := by
+  rw [OptionalTie.Optional.valueOr_tie]
+  exact value_or_spec T v d
+
+theorem in_range_spec_extracted (T : Ty) (v : Nat) :
+    OptionalBase.inRange T v = Spec.Scalar.inRange T.p T.min T.max v ∧
+    RequiredBase.inRange T v = Spec.Scalar.inRange T.p T.min T.max v := by
+  rw [OptionalTie.Optional.inRange_tie, OptionalTie.Required.inRange_tie]
+  exact in_range_spec T v
+
+theorem required_cmp_rules_extracted (impl : Impl) (T : Ty) (r : Rel) (a b : Nat) :
+    RequiredBase.rel impl T r a b = .val (Spec.Scalar.reqRel T.p r a b) := by
+  rw [OptionalTie.Required.rel_tie]
+  exact required_cmp_rules impl T r a b
+
+theorem required_spaceship_agrees_extracted (T : Ty) (r : Rel) (a b : Nat) :
+    RequiredBase.rel .spaceship T r a b = RequiredBase.rel .ops T r a b := by
+  rw [required_cmp_rules_extracted, required_cmp_rules_extracted]
+
+-- the regenerated definitions compute (former counterexamples of the NaN-null defect)
+example : OptionalBase.hasValue floatDefaultTy (OptionalBase.ctorNullopt floatDefaultTy) = false := by decide +kernel
+example : OptionalBase.opEq floatDefaultTy 0x7fc00000 0x7fc00000 = true := by decide +kernel
+example : OptionalBase.rel .spaceship floatDefaultTy .lt 0x7fc00000 0x3f800000 = .val true := by decide +kernel
+example : OptionalBase.valueOr floatDefaultTy 0xff800001 0x3f800000 = 0x3f800000 := by decide +kernel
+example : OptionalBase.opLt (sbeTy .int16) 0x8000 0x8001 = true := by decide +kernel
+example : RequiredBase.rel .spaceship (sbeTy .int8) .gt 0x01 0xff = .val true := by decide +kernel
+example : RequiredBase.inRange (sbeTy .uint8) 0xff = false := by decide +kernel
+
+end Extracted
 
 end Sbepp.Properties.C16
